@@ -71,10 +71,17 @@ class Gef:
             if 'PAYLOAD' in path:
                 path = path[:path.index('PAYLOAD') + 1]
             r = rs + ''.join('.' + p for p in path)
+            sfx = ''
             if k == 'load' and path:
                 ep = self.epoch(v, path[-1])
                 if ep:
-                    r += '@%d' % ep
+                    sfx = '@%d' % ep
+            if acc is not None and path and rs.startswith('node(phi{') and rs.endswith('})') and rs.count('phi{') == 1:
+                # a link of "one node or another" is "one node's link or the other's" (a re-read hoisted below the branches that chose the node)
+                mem = split_top(rs[len('node(phi{'):-2])
+                r = 'phi{%s}' % '|'.join(sorted('node(%s)%s%s' % (m_, ''.join('.' + p for p in path), sfx) for m_ in mem))
+            else:
+                r += sfx
         elif k == 'call':
             c = v.extra['callee']
             nm = c.get('name') or 'indirect'
